@@ -2,7 +2,7 @@ use ascii::AsciiString;
 
 use std::io::Error as IoError;
 use std::io::Result as IoResult;
-use std::io::{BufReader, BufWriter, ErrorKind, Read};
+use std::io::{BufReader, BufWriter, ErrorKind, Read, Write};
 
 use std::net::SocketAddr;
 use std::str::FromStr;
@@ -227,14 +227,17 @@ impl Iterator for ClientConnection {
 
             // checking HTTP version
             if *rq.http_version() > (1, 1) {
-                let writer = self.sink.next().unwrap();
+                // the response must go through the rejected request's own writer: the next
+                // writer only gets its turn once this one has been dropped
+                let mut writer = rq.into_writer();
                 let response = Response::from_string(
                     "This server only supports HTTP versions 1.0 and 1.1".to_owned(),
                 )
                 .with_status_code(StatusCode(505));
                 response
-                    .raw_print(writer, HTTPVersion(1, 1), &[], false, None)
+                    .raw_print(writer.by_ref(), HTTPVersion(1, 1), &[], false, None)
                     .ok();
+                writer.flush().ok();
                 continue;
             }
 
